@@ -53,7 +53,7 @@ def run():
     uni, ust = common.tlc_eval_json("Dump_Universe", cfg="Dump_Universe_S")
     chk.add_tlc(ust)
     seen = set()
-    for a in rng.sample(uni, 500 if QUICK else 20000):
+    for a in rng.sample(uni, min(len(uni), 500 if QUICK else 20000)):
         ts = gen.build_tables(dict(a, sites=[], muts=[])).tree_sequence()
         n = ts.num_samples
         if n == 0:
